@@ -200,6 +200,18 @@ def run_parsers(spec, acc, api):
                 acc.violation('near-miss-accepted', f'numberParseInt({t!r}, {radix}) = {w!r}', {'text': t, 'radix': radix})
             if w is not None and (not isinstance(w, int) or isinstance(w, bool)):
                 acc.violation('parse-int-type', f'numberParseInt({t!r}, {radix}) = {w!r}', {'text': t})
+    # numberParseInt never takes the integral part of a non-integer spelling (fractions, exponents): null, in every radix <= 10
+    for t in ['1.5e+0', '1.2345e+2', '1e+2', '2.5e+1', '1.0e+0', '1e2', '1E2', '12.0', '12.', '.5', '+-1', '0.0', '1.5', '9.99e+1', '5e-1']:
+        for radix in (None, 10, 8):
+            acc.case(('parse-int-non-integer', t, radix), True)
+            try:
+                w = pi([t] if radix is None else [t, radix], None)
+            except Exception as exc:  # pylint: disable=broad-except
+                acc.violation('parse-int-raised', f'{t!r} radix {radix}: {exc!r}', {'text': t})
+                continue
+            acc.count('parse_int_non_integer_texts')
+            if w is not None:
+                acc.violation('partial-parse-int', f'numberParseInt({t!r}{"" if radix is None else ", " + str(radix)}) = {w!r}', {'text': t, 'radix': radix})
     for t, want in GOOD:
         acc.case('good:' + t, True)
         v = pf([t], None)
